@@ -303,7 +303,7 @@ fn one_case(ctx: &Ctx, case: u64, l: &mut Local) {
             forged.push(b64e(json!(["salt", nm, "EVIL"]).to_string().as_bytes()));
             forged.push(b64e(json!(["salt", nm, {"jwk": keys::holder_jwk_json(keys::Alg::ES256, 1)}]).to_string().as_bytes()));
         }
-        forged.push(b64e(json!(["salt", "EVIL-ELEMENT"]).to_string().as_bytes()));
+        forged.push(model::evil_element_disclosure());
         forged.push(b64e(json!(["salt", {"_sd": [model::digest_of(&genuine.first().cloned().unwrap_or_default())]}]).to_string().as_bytes()));
         forged.push(b64e(json!(["salt", "nested", {"_sd": genuine.iter().map(|d| model::digest_of(d)).collect::<Vec<_>>() }]).to_string().as_bytes()));
         for (k, f) in forged.iter().enumerate() {
